@@ -355,6 +355,16 @@ func c05Refresh(c *Ctx) {
 			return k.Pol && k.Atom.Op == "EQ" && (k.Atom.Args[0].Name == "nil" || k.Atom.Args[1].Name == "nil")
 		})
 	}
+	if ok {
+		// ... and unconditionally there: a refresh that depends on the counter's old value (e.g. "only when it
+		// grows") cannot pull back a counter that ran ahead of the store, and the next event skips versions
+		for _, k := range p.withImplied(p.CondsAt(stores[0].Block())) {
+			if k.Atom.Has(func(x *Term) bool { return x.Op == "field" && x.Name == "version" && x.Args[0].IsParam(fn, 0) }) {
+				ok = false
+				got += " — stored only under " + k.String() + " (the refresh depends on the counter's old value)"
+			}
+		}
+	}
 	c.Check(ok, "R7", funcName(fn), fn.Pos(), "version = BE64(lastKey[:8]) + 1 from GetLast(HistoryTable), unchanged when not found", fmt.Sprintf("%d stores to the counter in RefreshVersion; value %s", len(stores), got))
 }
 
